@@ -113,6 +113,7 @@ type PCtx struct {
 	// Cancel is serialized with them
 	onErr    func(live bool)
 	errCalls int
+	hideDone bool
 }
 
 // Cancel cancels the context; a concurrent logged Err() read is either
@@ -156,6 +157,15 @@ func (c *PCtx) Done() <-chan struct{} {
 		c.mu.Unlock()
 		if isB {
 			c.park("sel")
+			c.mu.Lock()
+			hide := c.hideDone
+			c.hideDone = false
+			c.mu.Unlock()
+			if hide {
+				// resolves this one select in favour of the queued message: with a message
+				// and a cancelled context both ready Go may pick either case
+				return make(chan struct{})
+			}
 		}
 	}
 	return c.Context.Done()
@@ -460,12 +470,18 @@ func ReplayBcast(t *testing.T, rep *Report, tg BcastTarget, cases []V) {
 					nontrivial = true
 				}
 				since := p.arrivals()
+				if race && a == "Dequeue" {
+					p.mu.Lock()
+					p.hideDone = true
+					p.mu.Unlock()
+				}
 				p.release()
 				wait := long
-				if race {
+				if a == "ExitOnDone" {
 					wait = raceWait
-				} else if a == "ExitOnDone" {
-					wait = raceWait / 5
+					if !race {
+						wait = raceWait / 5
+					}
 				}
 				at, ok := p.waitArrival(since, wait)
 				if a == "Dequeue" {
@@ -660,8 +676,12 @@ func (r *bcastRun) checkRoom(kind string) {
 func (r *bcastRun) register(h string) {
 	p := newPCtx(h, false)
 	if r.chk {
+		// only reads that found the context live are recorded: what a cancelled
+		// handler's goroutine does with its queue has no observable consequence
 		p.onErr = func(live bool) {
-			r.rec.log(map[string]interface{}{"event": "Chk", "h": h, "live": live})
+			if live {
+				r.rec.log(map[string]interface{}{"event": "Chk", "h": h, "live": live})
+			}
 		}
 	}
 	r.mu.Lock()
